@@ -55,7 +55,7 @@ def run(ctx: Ctx, replay: str | None) -> None:
         p = json.load(open(replay))["payload"]
         if p["kind"] == "case":
             for key, what in eval_c04(p["case"]):
-                if key != "__gap__":
+                if not key.startswith("__"):
                     ctx.violation(key, what, p)
         elif p["kind"] == "raised":
             replay_raised(ctx, p)
@@ -94,6 +94,10 @@ def run(ctx: Ctx, replay: str | None) -> None:
             ctx.nontrivial(json.dumps(s["J"]))
         for key, what, case in r["fails"]:
             ctx.violation(key, what, {"kind": "case", "case": case})
+        for o in r["obs"]:
+            ctx.count("float32_cagrad_observations")
+            if ctx.counters["float32_cagrad_observations"] <= 8:
+                ctx.note("float32 observation (reported to the lead, not a verdict): " + o)
         # large budgets where the K = 5000 bound is not yet implied by the sub-optimality reached at K = 100
         if r["gap100"] is not None and r["gap100"] > 8.0 / 5002:
             big += [(s, 1000), (s, 5000)]
